@@ -44,6 +44,10 @@ def main():
         if step == "create":
             sid = Service().handle_create_config(args["cfg"])
             print("SID", sid, flush=True)
+        elif step == "create-named":
+            # the create-service COMMAND: service files plus the alias table (it prints errors instead of raising)
+            import frontend.client.commands as cmds
+            cmds.create_service(args["cfg_path"], args["sname"])
         elif step == "key":
             Service(args["sid"]).handle_create_key()
         elif step == "encrypt":
